@@ -97,6 +97,8 @@ func New[T any](
 		tree.locker = &sync.RWMutex{}
 	}
 
+	tree.buildMethods(0) // 生成 OPTIONS * 的报头内容，包含可能的 TRACE。
+
 	return tree
 }
 
@@ -188,6 +190,7 @@ func (tree *Tree[T]) Clean(prefix string) {
 	}
 
 	tree.node.clean(prefix)
+	tree.recountMethods()
 }
 
 // Remove 移除路由项
@@ -236,7 +239,7 @@ func (tree *Tree[T]) Remove(pattern string, methods ...string) {
 		child = child.parent
 	}
 
-	tree.buildMethods(-1, methods...)
+	tree.recountMethods()
 }
 
 // 获取指定的节点，若节点不存在，则在该位置生成一个新节点。
